@@ -36,7 +36,14 @@ import os
 from ..extract import lean_str, write_if_changed
 from ..lib.common import REPO
 
-KINDS = ["list", "tuple", "set", "dict", "ns", "odict", "ntuple"]
+KINDS = ["list", "tuple", "set", "dict", "ns", "odict", "ntuple", "dictsub"]
+
+
+class _ProbeDict(dict):
+    """a plain dict subclass (its instances have a `__dict__` of their own)"""
+
+
+SUB_CONTENT = {"kept": True}
 COPIERS = {"strip_meta", "recreate_branches"}
 COPYING_METHODS = {"dump", "validate", "merge_config", "save"}
 
@@ -61,6 +68,7 @@ def probe_kinds(problems):
             "ns": lambda: Namespace(x=elem),
             "odict": lambda: OrderedDict(x=elem),
             "ntuple": lambda: NT(elem),
+            "dictsub": lambda: _ProbeDict(x=elem),
         }[kind]()
 
     def first(x):
@@ -70,15 +78,32 @@ def probe_kinds(problems):
             return x["x"]
         return next(iter(x))
 
-    hints = {"list": List[int], "tuple": Tuple[int], "set": Set[int], "dict": Dict[str, int], "odict": Dict[str, int], "ntuple": Tuple[int]}
+    hints = {"list": List[int], "tuple": Tuple[int], "set": Set[int], "dict": Dict[str, int], "odict": Dict[str, int], "ntuple": Tuple[int],
+             "dictsub": Dict[str, int]}
+    SUB_CONTENT["kept"] = True
     table = []
     for kind in KINDS:
         # recreated?
         x = mk(kind, "1")
         r = recreate_branches(x)
         recreated = r is not x
+        if kind == "dictsub" and type(r) is type(x) and "x" not in r:
+            # the defect repaired by 2278288: the copy of a dict-subclass instance is empty.  Recorded, consumed by the model
+            # as Policy.subContent = false (the tie theorem tie_dict_subclass then fails)
+            SUB_CONTENT["kept"] = False
+            from collections import defaultdict
+
+            table.append((kind, recreated, True))
+            continue
         if type(r) is not type(x) or first(r) != "1":
             problems.append("HeapSites: recreate_branches changes type or content of a %s" % kind)
+        if kind == "dictsub":
+            from collections import defaultdict
+
+            dd = defaultdict(list, x=[0])
+            rd = recreate_branches(dd)
+            if type(rd) is not defaultdict or rd is dd or rd.get("x") != [0] or rd["x"] is dd["x"]:
+                SUB_CONTENT["kept"] = False
         if kind != "set":
             inner = [0]
             y = mk(kind, inner)
@@ -500,6 +525,8 @@ def generate(problems):
     body += "def copySites : List (String × Bool) := [%s]\n" % ", ".join("(%s, %s)" % (lean_str(k), b(v)) for k, v in sites)
     body += "/-- (position of a class spec, add_sub_defaults expands the lazy_instance signature default into init_args there) -/\n"
     body += "def subDefaults : List (String × Bool) := [%s]\n" % ", ".join("(%s, %s)" % (lean_str(k), b(v)) for k, v in subs)
+    body += "/-- the copy recreate_branches makes of a dict-subclass instance (plain subclass, defaultdict) holds its entries (probed) -/\n"
+    body += "def dictSubclassContentKept : Bool := %s\n" % b(SUB_CONTENT["kept"])
     body += "/-- `strip_meta(Namespace())` is a new object (probed) -/\n"
     body += "def stripMetaCopiesEmpty : Bool := %s\n" % b(strip_empty)
     body += "/-- (entry point . argument, what calling it on the live code did to the argument: unchanged | CHANGED | shared-result | kept | copied | unprobed) -/\n"
